@@ -295,7 +295,7 @@ add("C09", "c_exchange",
     note="~0.5 s CPU per exchange (2048-bit safe-prime checks on both sides).")
 add("C10", "c_exchange",
     [T("TestC10", 110, 800, env={"GOMAXPROCS": "2"}, shards=12), T("TestC10PQ", 3000, 30000)],
-    rule="harness scripted server playing one of 37 adversary strategies at a drawn position (own RSA key claiming the trusted fingerprint, untrusted fingerprint, wrong nonce/server_nonce echo at each reply, bit flip in encrypted_answer, answer under a wrong new_nonce, altered inner nonces, composite / non-safe / 2047- / 2049-bit dh_prime, g failing the residue rule, g in {0,1,8,-1}, g_a in {0,1,p-1,p,2^1984,p-2^1984}, wrong new_nonce_hash1, dh_gen_retry/fail, server_DH_params_fail, replay of a previous run, pq > 2^63 / prime / 0 / 1) plus the honest script and g_a just inside the ranges; pq sub-check on the real clock for non-semiprime pq. non-trivial = a mutation applied at a step the client reaches; distinct by (strategy, position, seeds)",
+    rule="harness scripted server playing one of 42 adversary strategies at a drawn position (own RSA key claiming the trusted fingerprint, untrusted fingerprint, wrong nonce/server_nonce echo at each reply, bit flip in encrypted_answer, answer under a wrong new_nonce, altered inner nonces, composite / non-safe / 2047- / 2049-bit dh_prime, g failing the residue rule, g in {0,1,8,-1}, g_a in {0,1,p-1,p,2^1984,p-2^1984, honest+p, p+1, 2p, 2p+1, 2^2048-1}, wrong new_nonce_hash1, dh_gen_retry/fail, server_DH_params_fail, replay of a previous run, pq > 2^63 / prime / 0 / 1) plus the honest script and g_a just inside the ranges; pq sub-check on the real clock for non-semiprime pq. non-trivial = a mutation applied at a step the client reaches; distinct by (strategy, position, seeds)",
     technique="adversarial PBT (rapid + synctest) with a reference server; control run of the same script without the mutation",
     text="Run returns an error for every applied adversarial strategy; the honest script succeeds with the server's key; g_a just inside the ranges passes the parameter checks.",
     note="")
